@@ -10,7 +10,10 @@ import (
 	"fmt"
 	"io"
 	"log/slog"
+	"sync"
+	"sync/atomic"
 	"testing"
+	"time"
 
 	"github.com/slackhq/nebula"
 	"github.com/slackhq/nebula/header"
@@ -21,18 +24,43 @@ import (
 
 const reject = noiseutil.RejectAfterMessages
 
-// recAEAD records the nonce of every Seal.
+// recAEAD records the nonce of every Seal, in the order the calls arrive.
 type recAEAD struct {
 	inner cipher.AEAD
+	mu    sync.Mutex
 	last  []byte
 	seals int
+	seq   [][12]byte
 }
+
+// gateCS is the tunnel's eKey: the real noiseutil cipher state behind a hook that lets the harness
+// hold a sender inside EncryptDanger (i.e. inside the writeLock critical section in FIPS/boring mode).
+type gateCS struct {
+	inner noiseutil.CipherState
+	hook  atomic.Pointer[func(n uint64)]
+}
+
+func (g *gateCS) EncryptDanger(out, ad, plaintext []byte, n uint64, nb []byte) ([]byte, error) {
+	if h := g.hook.Load(); h != nil {
+		(*h)(n)
+	}
+	return g.inner.EncryptDanger(out, ad, plaintext, n, nb)
+}
+func (g *gateCS) DecryptDanger(out, ad, ciphertext []byte, n uint64, nb []byte) ([]byte, error) {
+	return g.inner.DecryptDanger(out, ad, ciphertext, n, nb)
+}
+func (g *gateCS) Overhead() int { return g.inner.Overhead() }
 
 func (a *recAEAD) NonceSize() int { return a.inner.NonceSize() }
 func (a *recAEAD) Overhead() int  { return a.inner.Overhead() }
 func (a *recAEAD) Seal(dst, nonce, plaintext, ad []byte) []byte {
+	a.mu.Lock()
 	a.last = append(a.last[:0], nonce...)
 	a.seals++
+	var n12 [12]byte
+	copy(n12[:], nonce)
+	a.seq = append(a.seq, n12)
+	a.mu.Unlock()
 	return a.inner.Seal(dst, nonce, plaintext, ad)
 }
 func (a *recAEAD) Open(dst, nonce, ciphertext, ad []byte) ([]byte, error) {
@@ -61,11 +89,19 @@ func gen(r *hlib.Rand, n int, tier, profile string, emit func(string, ...any)) {
 		ops++
 		nthreads := r.Range(1, 6)
 		busy := map[int]bool{}
+		raced := false
 		steps := r.Range(4, 40)
 		for k := 0; k < steps; k++ {
 			t := base + r.Intn(nthreads)
 			if lock {
 				// every send is one critical section
+				if !raced && r.Chance(1, 40) {
+					// real goroutines contend for writeLock around the real sendInsideEncrypt
+					raced = true
+					emit("lockrace %d %d", t, r.Range(2, 3))
+					ops++
+					continue
+				}
 				switch r.Intn(4) {
 				case 0:
 					emit("hotsend %d", t)
@@ -138,7 +174,14 @@ func newExec(t *testing.T) func([]string) string {
 	l := slog.New(slog.NewTextHandler(io.Discard, nil))
 	var cs *nebula.ConnectionState
 	var rec *recAEAD
-	var chacha bool
+	var gate *gateCS
+	var chacha, lockMode bool
+	nonceOf := func(n12 [12]byte) uint64 {
+		if chacha {
+			return binary.LittleEndian.Uint64(n12[4:])
+		}
+		return binary.BigEndian.Uint64(n12[4:])
+	}
 	pend := map[int]pending{}
 	nb := make([]byte, 12)
 	key := make([]byte, 32)
@@ -177,7 +220,8 @@ func newExec(t *testing.T) func([]string) string {
 	return func(a []string) string {
 		if a[0] == "reset" {
 			c0 := hlib.Atou(a[1])
-			noiseutil.EncryptLockNeeded = a[2] == "1"
+			lockMode = a[2] == "1"
+			noiseutil.EncryptLockNeeded = lockMode
 			chacha = a[3] == "chacha"
 			var inner cipher.AEAD
 			if chacha {
@@ -193,7 +237,8 @@ func newExec(t *testing.T) func([]string) string {
 			} else {
 				ek = noiseutil.VerifNewAESGCM(rec)
 			}
-			cs = nebula.VerifCounterNewCS(ek, c0)
+			gate = &gateCS{inner: ek}
+			cs = nebula.VerifCounterNewCS(gate, c0)
 			pend = map[int]pending{}
 			return "ok"
 		}
@@ -233,6 +278,67 @@ func newExec(t *testing.T) func([]string) string {
 				return "pinned"
 			}
 			return encrypt(p.c)
+		case "lockrace":
+			// Sender B is held inside EncryptDanger (inside the critical section in lock mode) while sender
+			// A starts a send on the same tunnel; B then finishes and at once sends its next packet. With
+			// the counter reserved inside the critical section the cipher sees increasing counters whoever
+			// wins the lock; the answer is therefore deterministic.
+			if busy {
+				return "skip"
+			}
+			rounds := hlib.Atoi(a[2])
+			rec.mu.Lock()
+			start := len(rec.seq)
+			rec.mu.Unlock()
+			send := func(seg, scratch, nb []byte) {
+				nebula.VerifCounterSendInsideEncrypt(l, cs, 7, seg, scratch, nb)
+			}
+			segA, scratchA, nbA := []byte("segment A"), make([]byte, 0, 128), make([]byte, 12)
+			segB, scratchB, nbB := []byte("segment B"), make([]byte, 0, 128), make([]byte, 12)
+			for r := 0; r < rounds; r++ {
+				base := nebula.VerifCounterLoad(cs)
+				aDone := make(chan struct{})
+				fired := false
+				hook := func(n uint64) {
+					if n != base+1 || fired {
+						return
+					}
+					fired = true
+					go func() {
+						defer close(aDone)
+						send(segA, scratchA, nbA)
+					}()
+					// let A get as far as it can while B is still inside EncryptDanger
+					deadline := time.Now().Add(8 * time.Millisecond)
+					for nebula.VerifCounterLoad(cs) == base+1 && time.Now().Before(deadline) {
+						time.Sleep(50 * time.Microsecond)
+					}
+					time.Sleep(300 * time.Microsecond)
+				}
+				gate.hook.Store(&hook)
+				send(segB, scratchB, nbB)
+				send(segB, scratchB, nbB)
+				if !fired {
+					close(aDone)
+				}
+				select {
+				case <-aDone:
+				case <-time.After(5 * time.Second):
+					return "hang"
+				}
+				gate.hook.Store(nil)
+			}
+			rec.mu.Lock()
+			seq := append([][12]byte(nil), rec.seq[start:]...)
+			rec.mu.Unlock()
+			if lockMode {
+				for i := 1; i < len(seq); i++ {
+					if nonceOf(seq[i]) <= nonceOf(seq[i-1]) {
+						return fmt.Sprintf("disorder %d reached the cipher after %d", nonceOf(seq[i]), nonceOf(seq[i-1]))
+					}
+				}
+			}
+			return fmt.Sprintf("ok sealed=%d ctr=%d", len(seq), nebula.VerifCounterLoad(cs))
 		case "hotsend":
 			if busy {
 				return "skip"
